@@ -111,9 +111,35 @@ def huge_number(rng):
                        "0x" + "F" * 3500 + " / 3", "9" * 4000 + " * 0", "7 - " + "9" * 4300])
 
 
+def resource_limit_key(key, what, text):
+    """Resource limits of the host interpreter, keyed by mechanism AND by the shape that is needed to reach them (known findings)."""
+    depth, d = 0, 0
+    for ch in text:
+        d += ch == "{"
+        d -= ch == "}"
+        depth = max(depth, d)
+    chained_aliases = len(re.findall(r"^\s*type \w+ = \w+\[", text, re.M))
+    if "RecursionError" in key and (depth >= 150 or chained_aliases >= 150):
+        return "recursion-limit"
+    if "ValueError" in key and "Exceeds the limit" in what and chained_aliases >= 100 and "[65535]" in text:
+        return "alias-size-beyond-print-limit"
+    return key
+
+
 def structured(rng):
     """Hostile shapes: long dotted names, deep nesting, long expressions, huge numbers."""
-    r = rng.randrange(9)
+    r = rng.randrange(11)
+    if r == 9:
+        # beyond the interpreter's recursion limit (known finding recursion-limit) and just below it
+        if rng.random() < 0.5:
+            depth = rng.choice([200, 450, 600, 1200])
+            return "proto p\n" + "".join(f"message M{k} {{\n" for k in range(depth)) + "bool a = 1\n" + "}\n" * depth
+        n = rng.choice([150, 300, 420, 900])
+        return "proto p\ntype T0 = bool[1]\n" + "".join(f"type T{k} = T{k - 1}[1]\n" for k in range(1, n)) + f"message M {{ T{n - 1} a = 1 }}\n"
+    if r == 10:
+        # sizes that only aliases can reach (a message is limited to 65535 bits, an alias is not)
+        n = rng.choice([3, 40, 300, 950])
+        return "proto p\ntype T0 = byte[65535]\n" + "".join(f"type T{k} = T{k - 1}[65535]\n" for k in range(1, n))
     if r == 8:
         # import paths the operating system (or Python's path functions) dislikes
         path = rng.choice(["li\x00b.bitproto", "\x00", "", ".", "/", "..", "lib.bitproto/", "/dev/null", "/proc/self/mem", "x" * rng.choice([300, 5000]),
@@ -290,6 +316,8 @@ def worker(ctx):
         res.count("renders", rep["renders"])
         res.count("renders_optimisation_mode", rep["renders_opt"])
         for pr in rep["problems"]:
+            if isinstance(text, str):
+                pr["key"] = resource_limit_key(pr["key"], pr["what"], text)
             shown = text[:4000] if isinstance(text, str) else {"bytes_hex": text[:4000].hex(), "as": "imported file" if render == "import" else "main file"}
             res.violation(pr["key"], pr["what"] + f" (origin {origin})", {"input": shown, "origin": origin, "traceback": pr["traceback"]})
         return st == "accepted"
@@ -388,6 +416,7 @@ def atheris_tier(ctx, workdir, seeds, seconds):
         data = json.load(open(findings))
         res.count("atheris_accepted", data["stats"]["accepted"])
         for key, f in data["findings"].items():
+            key = resource_limit_key(key, f["what"], f["input"])
             res.violation(key, f"[atheris] {f['what']}", {"input": f["input"], "traceback": f["traceback"], "origin": "atheris"})
     for name in os.listdir(art):
         if name.startswith("timeout-"):
